@@ -236,6 +236,8 @@ def model_request(case, obs):
             r["root"] = cps(case["root"]); r["suffix"] = cps(case["suffix"])
         return r
     sbx = (obs or {}).get("sbx") or sbx_token(25)
+    if "@TOP" in case["req"]:
+        case = dict(case, req=case["req"].replace("@TOP", sbx))    # the model's name of the sandbox directory
     ds = case.get("ds", {})
     tftp = case["proto"] == "tftp"
     r = {
